@@ -425,7 +425,12 @@ def run(chk):
     chk.assume("interior monotonicity of the sqrt form is not a theorem (it is false for some parameters): it is left to the run-time guards, whose presence is checked by fingerprint and by calling _checkMonotonic",
                "resolution consistency of whole grids is observed at 2e-5 m (positions go through FineContour interpolation and refinement)")
     chk.coq()
-    n = check_functions(chk, tr)
+    # spacing by perpendicular distance: theories/Model_Sperp.v (PrimFloat instance) against the real FineContour.interpSSperp
+    from props import quad
+    chk.trust("hand model theories/Model_Sperp.v of FineContour.interpSSperp (projection, monotonising loops, total, linear interpolation with extrapolation), "
+              "run bit for bit against the real method on every run")
+    qc = quad.correspondence(chk, 150 if chk.tier == "quick" else 1500, ["sperp"], "sperp")
+    n = check_functions(chk, tr) + (len(qc[0]) if qc else 0)
     n += check_region_level(chk)
     n += check_range_parameters(chk)
     n += check_grids(chk)
